@@ -8,7 +8,7 @@ patch=$(readlink -f "$1"); prop=$2; tier=${3:-quick}
 here=$(cd "$(dirname "$0")/.." && pwd)
 work=$(mktemp -d /tmp/seedtest.XXXXXX)
 trap 'rm -rf "$work"' EXIT
-rsync -a --exclude .git --exclude .cache --exclude evidence/replay "$here/" "$work/verif/"
+rsync -a --exclude .git --exclude .cache --exclude evidence/replay --exclude coq/cases "$here/" "$work/verif/" 2>/dev/null
 rsync -a --exclude .git /repo/ "$work/repo/"
 ( cd "$work/repo" && patch -p1 -s < "$patch" ) || { echo "patch does not apply"; exit 2; }
 cd "$work/verif" || exit 2
